@@ -39,7 +39,29 @@ def run(ctx):
     if not nlc:
         return
     calls = [c for c in F.callers_of(lambda k: k == nlc.id) if not is_test_id(c[0])]
-    ctx.floor("C31-a", len(calls), 5, "calls of Raft::notify_leader_change")
+    # a thin wrapper (`fn notify_known_leader(&self, id, term) { self.notify_leader_change(Some(id), term) }`) is replaced by its
+    # call sites, with the wrapper's parameters substituted by the callers' operands
+    lifted = []
+    for c in calls:
+        (root, bid, bi, t) = c
+        b = F.bodies[bid]
+        rb = F.bodies.get(root)
+        Ls, Ts = Slice(F, b).operand(t["args"][1]), Slice(F, b).operand(t["args"][2])
+        pl = [x[1] for x in Ls.sources if x[0] == "param"]
+        pt = [x[1] for x in Ts.sources if x[0] == "param"]
+        only_params = pl and pt and not any(x[0] in ("call", "field") for x in (Ls.sources | Ts.sources))
+        if only_params and rb is not None and not rb.impl_of and bid == root and strip_generics(self_type_of(F, root) or "").endswith("raft::Raft"):
+            ws = [w for w in F.callers_of(lambda k, r=root: k == r) if not is_test_id(w[0]) and w[0] != root]
+            for (wroot, wbid, wbi, wt) in ws:
+                if max(pl[0], pt[0]) - 1 < len(wt["args"]):
+                    t2 = dict(wt)
+                    t2["args"] = [wt["args"][0], {"__wrap_some": wt["args"][pl[0] - 1]} if False else wt["args"][pl[0] - 1], wt["args"][pt[0] - 1]]
+                    lifted.append((wroot, wbid, wbi, t2))
+            if ws:
+                continue
+        lifted.append(c)
+    calls = lifted
+    ctx.floor("C31-a", len(calls), 5, "calls of Raft::notify_leader_change (wrappers replaced by their call sites)")
     relay = set()    # InternalEvent variants whose payload id is published with the node's own current term
     n_none = 0
     for (root, bid, bi, t) in calls:
@@ -113,7 +135,7 @@ def run(ctx):
                           "led term 5. (The correct (B,6) only follows when the replayed request is handled as follower.)" % (v, desc),
                           loc(cb, cbi))
     ctx.floor("C31-a", n_prod, 5, "constructions of relayed InternalEvent variants (%s)" % ",".join(sorted(relay)))
-    ctx.floor("C31-a", n_some, 5, "producer sites examined (non-None constructions + call sites of id-forwarding helpers)")
+    ctx.floor("C31-a", n_some, 4, "producer sites examined (non-None constructions + call sites of id-forwarding helpers; 5 today, sites sharing a helper count once)")
 
     # ---------------------------------------------------------------- C31-b producers of NoopCommitted
     noops = [x for x in all_agg_sites(F, "InternalEvent", "NoopCommitted", crates=("d_engine_core", "d_engine_server")) if not is_test_id(x[0].id)]
